@@ -3,7 +3,7 @@
    the correspondence run, not verified); schema conformance of all fields is an oracle. *)
 From Coq Require Import Lia Permutation Sorted.
 From RM Require Import Gen.C15Fmt.
-From RM Require Import C15.Model C15.Schema C15.Widths C15.Utf8 C15.Pretty C15.Proofs C15.Proofs2 C15.Proofs3 C15.Proofs4 C15.Proofs5 C15.Proofs6 C15.Proofs7 C15.Scalar C15.Proofs8 C15.Proofs9 C15.Regs C15.Proofs10 C15.Consistent C15.Proofs11 C15.Proofs12 C15.Proofs13 C15.Offsets C15.Proofs14 C15.KeyOrder C15.Proofs15 C15.Proofs16 C15.Float C15.Proofs17.
+From RM Require Import C15.Model C15.Schema C15.Widths C15.Utf8 C15.Pretty C15.Proofs C15.Proofs2 C15.Proofs3 C15.Proofs4 C15.Proofs5 C15.Proofs6 C15.Proofs7 C15.Scalar C15.Proofs8 C15.Proofs9 C15.Regs C15.Proofs10 C15.Consistent C15.Proofs11 C15.Proofs12 C15.Proofs13 C15.Offsets C15.Proofs14 C15.KeyOrder C15.Proofs15 C15.Proofs16 C15.Float C15.Proofs17 C15.FnOffsets C15.Proofs18.
 From RM Require C19.Model.
 From Flocq Require IEEE754.Binary IEEE754.Bits.
 Open Scope Z_scope.
@@ -756,3 +756,36 @@ Proof.
   exists {| C19.Model.d_nc := false; C19.Model.d_null := false; C19.Model.d_low := false; C19.Model.d_nearby := 0; C19.Model.d_poison := false |}.
   vm_compute. split; reflexivity.
 Qed.
+
+(* ------------------------------------------------------------------ function offsets, judged on the document
+   "function offsets equal address minus base": the document does not print the function base, so the judgement [fn_offsets_ok] walks
+   the threads / frames of the document in step with the process state and takes the base from the state's frame: fb <= offset and
+   function_offset = offset - fb on the DECODED hex strings of the document; no function base, no function_offset.  For every
+   well-formed state, both build profiles, the report passes; the driver runs the same judgement on every REAL print_json output with
+   the function bases of the real state. *)
+Theorem c15_function_offsets : forall p s, wf_state s = true ->
+  exists j, json_of_state p s = Ret j /\ fn_offsets_ok s j = true.
+Proof. intros p s H. exists (report_obj s). split; [apply report_pure; exact H|apply report_fn_offsets; exact H]. Qed.
+Print Assumptions c15_function_offsets.
+
+Definition fo_doc (frames1 : list json) (more : list json) : json :=
+  JObj [(k_threads, JArr (JObj [(k_frames, JArr frames1)] :: JObj [(k_frames, JArr [])] :: more))].
+Definition fo_frame (off : list Z) (fo : option (list Z)) : json :=
+  JObj ((k_offset, JStr off) :: match fo with Some x => [(k_function_offset, JStr x)] | None => [] end).
+(* ex_state: thread 0 has a frame at 0x401000 in a function based at 0x400f00 and a frame without function, thread 1 has no frames *)
+Theorem c15_function_offsets_rejects :
+  fn_offsets_ok ex_state (fo_doc [fo_frame [48; 120; 48; 48; 52; 48; 49; 48; 48; 48] (Some [48; 120; 48; 48; 48; 48; 48; 49; 48; 48]); fo_frame [48; 120; 48; 48; 48; 48; 48; 48; 49; 48] None] []) = true /\
+  fn_offsets_ok ex_state (fo_doc [fo_frame [48; 120; 48; 48; 52; 48; 49; 48; 48; 48] (Some [48; 120; 48; 48; 48; 48; 48; 49; 48; 49]); fo_frame [48; 120; 48; 48; 48; 48; 48; 48; 49; 48] None] []) = false /\   (* 0x101 *)
+  fn_offsets_ok ex_state (fo_doc [fo_frame [48; 120; 48; 48; 52; 48; 49; 48; 48; 48] (Some [48; 120; 48; 48; 52; 48; 49; 48; 48; 48]); fo_frame [48; 120; 48; 48; 48; 48; 48; 48; 49; 48] None] []) = false /\   (* the address itself *)
+  fn_offsets_ok ex_state (fo_doc [fo_frame [48; 120; 48; 48; 52; 48; 49; 48; 48; 48] None; fo_frame [48; 120; 48; 48; 48; 48; 48; 48; 49; 48] None] []) = false /\           (* function_offset missing *)
+  fn_offsets_ok ex_state (fo_doc [fo_frame [48; 120; 48; 48; 52; 48; 49; 48; 48; 48] (Some [48; 120; 48; 48; 48; 48; 48; 49; 48; 48]); fo_frame [48; 120; 48; 48; 48; 48; 48; 48; 49; 48] (Some [48; 120; 48; 48; 48; 48; 48; 48; 49; 48])] []) = false /\ (* offset without a function base *)
+  fn_offsets_ok ex_state (fo_doc [fo_frame [48; 120; 48; 48; 52; 48; 49; 48; 48; 48] (Some [48; 120; 48; 48; 48; 48; 48; 49; 48; 48])] []) = false /\                        (* a frame missing *)
+  fn_offsets_ok ex_state (fo_doc [fo_frame [48; 120; 48; 48; 52; 48; 49; 48; 48; 48] (Some [48; 120; 48; 48; 48; 48; 48; 49; 48; 48]); fo_frame [48; 120; 48; 48; 48; 48; 48; 48; 49; 48] None] [JObj [(k_frames, JArr [])]]) = false /\  (* a thread too many *)
+  fn_offsets_ok ex_state (fo_doc [fo_frame [48; 120; 48; 48; 52; 48; 48; 48; 48; 48] (Some [48; 120; 48; 48; 48; 48; 48; 49; 48; 48]); fo_frame [48; 120; 48; 48; 48; 48; 48; 48; 49; 48] None] []) = false /\   (* offset below the function base + offset *)
+  fn_offsets_ok ex_state (JObj []) = false /\
+  exists j, json_of_state Release ex_state = Ret j /\ fn_offsets_ok ex_state j = true.
+Proof.
+  repeat (split; [vm_compute; reflexivity|]). exists (report_obj ex_state).
+  split; [apply report_pure; vm_compute; reflexivity|vm_compute; reflexivity].
+Qed.
+Print Assumptions c15_function_offsets_rejects.
